@@ -20,6 +20,8 @@
 open Model
 open Model.BfsM
 type string = Stdlib.String.t
+let max = Stdlib.max
+let min = Stdlib.min
 open Conv
 
 type ev = I | V of int * int * int | W of int * int | R of int * int | Q of int | F of int * int | D
